@@ -1,5 +1,7 @@
 pub mod c08;
 pub mod c09;
+pub mod c10;
+pub mod c11;
 pub mod c13;
 pub mod c14;
 pub mod c15;
@@ -12,6 +14,9 @@ pub fn sweep_prop(id: &str) -> Option<Box<dyn Prop>> {
     Some(match id {
         "C08" => Box::new(c08::C08::new()),
         "C09" => Box::new(c09::C09::new()),
+        "C10" => Box::new(c10::C10::new()),
+        "C11" => Box::new(c11::C11::new()),
+        "C12" => Box::new(crate::fsm::C12Histories::new()),
         "C13" => Box::new(c13::C13::new()),
         "C14" => Box::new(c14::C14::new()),
         "C15" => Box::new(c15::C15::new()),
